@@ -521,7 +521,13 @@ Definition step (st : state) (o : op) : state * res :=
       | OOther => (st, RUnspec)
       | OReopen =>
           if h_ndds h =? 0 then (st, RUnspec) else
-          let h' := match vgs v, vss v with [], [] => h | _, _ => unknown h end in
+          (* refs handed out by Hnewref but never used by a descriptor are forgotten: maxref is recomputed from the
+             descriptors (S does not know the refs of Vgroups/Vdatas: -1 = unknown) *)
+          let mr := if h_maxref h <? 0 then -1 else
+                    fold_right (fun p acc => Z.max acc (snd p)) 0 (used_intervals h None) in
+          let h1 := mkH (h_known h) (h_eof h) (h_ndds h) (h_free h) mr (h_elems h) (h_bulk h) in
+          let h' := match vgs v, vss v with [], [] => h1
+                    | _, _ => mkH false 0 (h_ndds h) (h_free h) (-1) (h_elems h) (h_bulk h) end in
           ((h', detach_all v, d), ROk [eofv h'])
       | OHopen _ => let (h', r) := step_h h v o in ((h', v0, d), r)
       | _ =>
